@@ -264,7 +264,7 @@ def run_scenario(res, scenario, max_paths=64, max_decisions=60, timeout_ms=20000
                 try:
                     try:
                         ok = all(solve.evalf(c, F.env) for c in pc)
-                    except (KeyError, ZeroDivisionError):
+                    except (KeyError, ZeroDivisionError, OverflowError, ValueError, ArithmeticError):
                         ok = False
                     if not ok:
                         continue
@@ -283,8 +283,10 @@ def run_scenario(res, scenario, max_paths=64, max_decisions=60, timeout_ms=20000
                                 s1 = g1
                             else:
                                 s1 = sym_to_float(g1, F.env)
+                                if math.isnan(s1) or math.isinf(s1):
+                                    continue        # float overflow while *evaluating* the term (huge exp arguments): not a comparison
                                 same = close(s1, float(g2), 1e-6)
-                        except (KeyError, ZeroDivisionError, OverflowError, ValueError) as e:
+                        except (KeyError, ZeroDivisionError, OverflowError, ValueError, ArithmeticError) as e:
                             continue
                         res.fidelity += 1
                         if not same:
